@@ -21,7 +21,7 @@ RULE = ("history = (0..2 successful transfers from {expedited upload, segmented 
         "write-only, write read-only/const (var, record member, array member; expedited and segmented), missing index, "
         "missing sub-index (record, array), every numeric type x payload length 0..9 != width (expedited and segmented), "
         "entry without value, wrong toggle on upload / download segment 1, 2, 3, 127..129, 255..257, ccs 7, block download; "
-        "client part: same refusals through RemoteNode.sdo, abort code decoding for table codes, single bits, 0, "
+        "client part: same refusals through RemoteNode.sdo (fresh / after a transfer / after a timed-out transfer whose answer came late / after another refusal), abort code decoding for table codes, single bits, 0, "
         "0xFFFFFFFF, table code +-1. states = (history, step); non-trivial = histories with >= 1 predecessor transfer")
 ASSUMPTIONS = [
     "wrong payload length: 0x06070010 or the specific 0x06070012 (too long) / 0x06070013 (too short) are all accepted",
@@ -132,7 +132,7 @@ REFUSALS = refusals()
 
 def bounds(tier):
     return {"refusal_kinds": len(REFUSALS), "predecessor_histories": "length 0..2 over 8 transfers (73)",
-            "followups": 8, "client_side": "all refusal kinds x {fresh, after 1 transfer}", "abort_codes": "table, single bits, 0, ~0, +-1"}
+            "followups": 8, "client_side": "all refusal kinds x {fresh, after 1 transfer, after a timed-out transfer whose answer came late, after another refusal}", "abort_codes": "table, single bits, 0, ~0, +-1"}
 
 
 def cases(tier, seed):
@@ -326,7 +326,7 @@ def run_client(case, st):
         name, kind, p, codes = REFUSALS[ri]
         if kind not in ("upload", "download") or codes is None:
             continue
-        for pre in (None, "ul_seg"):
+        for pre in (None, "ul_seg", "late-ul", "refused-ul"):
             simenv.new_world()
             bus = simenv.SimBus("inline")
             a, b = canopen.Network(), canopen.Network()
@@ -338,8 +338,25 @@ def run_client(case, st):
             cb = []
             local.add_write_callback(lambda **kw: cb.append((kw["index"], kw["subindex"], bytes(kw["data"]))))
             rc = {"part": "client", "refusals": [ri], "pre": pre}
-            if pre:
+            if pre == "ul_seg":
                 remote.sdo.upload(0x2401, 0)
+            elif pre == "late-ul":
+                # an earlier transfer on the same client failed: the server's answer arrived after the client gave up
+                held, orig = [], b.send_message
+                b.send_message = lambda cid, data, remote=False: held.append((cid, bytes(data)))
+                try:
+                    remote.sdo.upload(0x2400, 0)
+                    raise simenv.HarnessError("late predecessor did not time out")
+                except canopen.SdoCommunicationError:
+                    pass
+                b.send_message = orig
+                for cid, d in held:
+                    bus.inject(cid, d)
+            elif pre == "refused-ul":
+                try:
+                    remote.sdo.upload(0x4000, 0)
+                except canopen.SdoAbortedError:
+                    pass
             before = {i: dict(s) for i, s in local.data_store.items()}
             n0 = len(bus.log)
             st.evaluations += 1
